@@ -38,7 +38,7 @@ CONSTANTS
   C0s = {%(c0s)s}
   Times = {%(times)s}
   MaxPolls = %(polls)d
-  Tol = 5
+  Tol = %(tol)d
   Surcharges = {%(sur)s}
   Gated = {%(gated)s}
 VIEW view
@@ -96,8 +96,8 @@ def instants(n, c0s, span, k, rng):
 
 
 def cfg(ns, c0s, times, polls=3, sur=("entry", "never", "always"), variants=("V0", "V1"), gated=("TRUE", "FALSE"),
-        emit=True):
-    return CFG % dict(variants=", ".join('"%s"' % v for v in variants), ns=", ".join(map(str, ns)),
+        emit=True, tol=5):
+    return CFG % dict(tol=tol, variants=", ".join('"%s"' % v for v in variants), ns=", ".join(map(str, ns)),
                       c0s=", ".join(map(str, c0s)), times=", ".join(map(str, times)), polls=polls,
                       sur=", ".join('"%s"' % x for x in sur), gated=", ".join(gated), emit="ACTION_CONSTRAINT Emit" if emit else "")
 
@@ -133,6 +133,11 @@ def run(chk):
         runs.append(("V1 (as written + both uniform formulas), n=36", cfg([36], c36, t36, polls, variants=V1), True))
         c5 = [0, 3, 5, 6, 11]
         runs.append(("V1 (as written + both uniform formulas), n=5", cfg([5], c5, instants(5, c5, 2, k, rng), polls, variants=V1), True))
+    # signTolerance is configurable (DPoSConfiguration.SignTolerance): the V0 schedule and the gate of the Try* calls
+    # follow it, the V1 schedule is written in absolute seconds.  One run with another value keeps the two apart.
+    t_tol10 = cap(instants(2, [0, 1, 2, 3], 2, k, rng) + [10 * i + d for i in range(1, 5) for d in (-1, 0, 1)], k + 4)
+    runs.append(("V0 and V1 with signTolerance 10 s, n=2,3", cfg([2, 3], [0, 1, 2, 3, 4], t_tol10, polls, tol=10), True))
+    TOL10 = len(runs) - 1
     ex = concurrent.futures.ThreadPoolExecutor(max_workers=5)
     fb = ex.submit(vf.go_build, "view")
     fs = [ex.submit(vf.tlc, "Consensus", "View", "c26-%d.cfg" % i, workers=1, timeout=1500, cfg_text=c, jvm=JVM_FAST)
@@ -155,24 +160,31 @@ def run(chk):
                         timeout=900, jvm=JVM_FAST) if thorough else None
     results = [f.result() for f in fs]
 
-    allb = []
+    allb, b10 = [], []
     budget = 400000 if thorough else 60000
-    for (label, _, emit), r in zip(runs, results):
+    for i, ((label, _, emit), r) in enumerate(zip(runs, results)):
         vf.tlc_ok(r, "View.tla " + label)
         chk.add_tlc(r, label)
         if not emit:
             continue
-        behs, st = vf.behaviours(r, limit=budget, rng=rng, per_class=budget // 4,
+        behs, st = vf.behaviours(r, limit=budget if i != TOL10 else budget // 4, rng=rng, per_class=budget // 4,
                                  strat_key=lambda b: b[-1]["act"] + "/" + b[-1]["args"]["variant"])
         st["label"] = label
         chk.cov.setdefault("extraction", []).append(st)
-        allb += behs
+        if i == TOL10:
+            b10 += behs
+        else:
+            allb += behs
     if not any(b[-1]["act"] == "PollEntrySurcharge" for b in allb):
         raise vf.Infra("no behaviour reaches the deviation action (vacuous instants)")
     path = os.path.join(vf.scratch(), "c26-beh.jsonl")
     vf.write_json_lines(path, allb)
     recs, _ = vf.run_driver(binary, ["replay", path], timeout=3000)
     chk.absorb(verdict_first(chk, recs), "replay of %d behaviours" % len(allb))
+    path10 = os.path.join(vf.scratch(), "c26-beh10.jsonl")
+    vf.write_json_lines(path10, b10)
+    recs, _ = vf.run_driver(binary, ["replay", path10], timeout=3000, env={"VERIF_VIEW_TOL": "10"})
+    chk.absorb(verdict_first(chk, recs), "replay of %d behaviours with signTolerance 10 s" % len(b10))
 
     # binding self-tests
     good = [b for b in allb if len(b) >= 2 and not b[-1]["exp"]["dev"] and b[-1]["args"]["variant"] == "V1"]
@@ -223,7 +235,7 @@ def run(chk):
     if r["rc"] == 0 and r2 is not None:
         chk.selftest("trace: one recorded view offset corrupted", r2["rc"] != 0 and not r2["timed_out"])
     chk.assumptions += [
-        "time in whole seconds, signTolerance = 5 s (the value of every network); the on-duty arbiter is taken from "
+        "time in whole seconds, signTolerance = 5 s (the value of every network) and one run with 10 s; the on-duty arbiter is taken from "
         "ArbitratorsMock.GetNextOnDutyArbitrator(offset)",
         "offsets stay below three rounds: beyond, (c-n)*3*20^(c/n) overflows uint32 in the code and is not modelled",
         "exhaustive polling schedules use instants within 1 s of every view boundary (one-shot and poll-at-boundary "
